@@ -42,7 +42,20 @@ def _expr(b, defs, op, depth=0, upnames=None):
     flds = [p for p in pl["p"] if isinstance(p, dict) and "f" in p]
     nm = b.lname(l)
     if nm and not flds:
-        return nm
+        # a named local that is plain arithmetic over other variables (`let axis = i + 1;`) is looked through;
+        # pattern bindings (the loop variable itself) and everything else are leaves
+        dsn = defs.of(l)
+        arith = False
+        if len(dsn) == 1 and dsn[0][0] == "stmt" and not dsn[0][3]["p"]:
+            rvn = dsn[0][4]
+            if rvn["k"] == "binop":
+                arith = True
+            elif rvn["k"] == "use" and rvn["op"].get("k") in ("copy", "move"):
+                src = rvn["op"]["place"]
+                sd = defs.of(src["l"])
+                arith = b.lname(src["l"]) is None and len(sd) == 1 and sd[0][0] == "stmt" and sd[0][4]["k"] == "binop"
+        if not arith:
+            return nm
     ds = defs.of(l)
     if len(ds) != 1:
         return "v%d" % l
